@@ -346,11 +346,13 @@ fn main() {
                 v.len()
             };
             let shape = format!(
-                "dom={dshape} merges={} origins={} {}",
-                merges.min(2),
-                distinct_origins.min(4),
+                "dom={dshape} merges={} {}",
+                merges.min(1),
                 if n_err > 0 { "unresolved" } else { "resolved" }
             );
+            if distinct_origins >= 3 {
+                ctx.count("(cases blaming >= 3 distinct commits)");
+            }
             let nontrivial = origins.len() >= 2 && nodes.len() >= 2;
             ctx.emit(i, term, nontrivial, &shape);
         }
